@@ -11,6 +11,16 @@ Domain : v1 configuration with 0-2 input rails, 0-2 output rails (all of the blo
          variable $triggered_output_rail).  User / bot texts and dialog routes vary over a pool in the table and are
          drawn by Hypothesis in the sampled part, which also draws rail counts and the flow shared by each slot.
          A bot message is supplied (last message, role assistant) whenever dialog is off and output is on.
+         Two further dimensions of every row: (1) HOW THE RAILS KEEP AND SIGNAL THEIR VERDICT - all rail flows of the
+         configuration write their action's result to one shared variable (the library convention `$allowed = execute
+         ...` / `if not $allowed`) or each to a variable of its own, and a rejecting action returns False, None (no
+         return value), 0 or "" (each makes `if not $result` true) - so a rail that rejects after an earlier rail of the
+         same call allowed must still block;  (2) THE CALLS BEFORE THE JUDGED ONE - 0-3 earlier calls on the same
+         instance, each with its own `rails` selection (or none = all rails), verdicts, route and texts, continuing the
+         conversation or belonging to another one, and the way the calls are awaited: each in its own task (`generate`,
+         `run_until_complete(generate_async)`) or ALL IN ONE COROUTINE (one asyncio task = one contextvars context, as an
+         application's own coroutine or a batch loop awaits `generate_async`).  Only the last call is judged: reply, rail
+         invocations, LLM calls and log are those of THIS call, whatever ran before it.
 Oracle : reference table written from docs/user_guides/advanced/generation-options.md and the statement:
            * no rail action of an unselected category is ever invoked; selected input rails run in order on the text
              left by their predecessors until the first reject;
@@ -36,7 +46,7 @@ from vf.fakes import GENERATION_TASKS, PREDEF, refusal_text
 PID = "C16"
 LEVEL = "exploration"
 CASE_TIMEOUT = 60
-WALL = {"quick": 170, "thorough": 1500}
+WALL = {"quick": 300, "thorough": 1500}
 CATS = ["input", "dialog", "retrieval", "output"]
 SUPPLIED_K = 9  # the supplied bot message carries the marker LM0C9Z so that output rails treat it as checked material
 RULE = (
@@ -49,9 +59,17 @@ RULE = (
     "retrieval rail, so a selected category can have no rail at all) + 9 same-flow shapes (one flow in input and output, crossed "
     "pairs, twice in input, twice in output, one flow in all four places), each x 16 subsets x every effective verdict vector, "
     "spelling alternating = 1632 rows; texts/routes cycle over a pool; every 4th row is also judged after a call with all rails, "
-    "every 3rd eligible row with an empty supplied bot message. Sampled part: the same row space with Hypothesis-drawn rail "
-    "counts (0-2, 0-2, 0-1), per-slot flow sharing, hostile user texts, bot texts, routes, partial-dict spelling and "
-    "enable_rails_exceptions. Non-trivial = subset != all four and (a reject or rewrite among the verdicts of a selected "
+    "every 3rd eligible row with an empty supplied bot message, every 6th as the last of 2-3 calls that ONE coroutine awaits one "
+    "after the other (earlier calls: selection / none, verdict vectors, route, texts and same-or-other conversation derived from the "
+    "row number); (c) family RESULT_SHAPES on the 2+2+1 configuration = how a rejection is signalled: result variable shared by all "
+    "rail flows x rejecting action returns None / 0 / '' and own variable per rail x returns False / None (shared + False is every "
+    "other table), each x 16 subsets x every effective verdict vector with a reject in a selected category = 780 rows + variants. "
+    "Sampled part: the same row space with Hypothesis-drawn rail "
+    "counts (0-2, 0-2, 0-1), per-slot flow sharing, hostile user texts, bot texts, routes, partial-dict spelling, "
+    "enable_rails_exceptions, result variable (shared 2/3, own 1/3), value returned by a rejecting rail action (False 1/3, None 1/3, "
+    "0 and '' 1/6 each), 0-2 earlier calls with drawn selections (+ the optional all-rails warm-up call) and the way the calls are "
+    "awaited (generate / run_until_complete(generate_async) per call / all in one task, 1/4 : 1/4 : 1/2). "
+    "Non-trivial = subset != all four and (a reject or rewrite among the verdicts of a selected "
     "category, or a selected input/output category without any rail, or one flow that ran in two places); distinct by the whole case."
 )
 ASSUMPTIONS = [
@@ -61,6 +79,13 @@ ASSUMPTIONS = [
     "with dialog selected the reply text itself is asserted only through markers (which text reached the reply), not character by character",
     "a flow listed in several places decides whether it checks $user_message or $bot_message by the documented context variable $triggered_output_rail (docs/user_guides/detailed_logging), as a user-written two-way rail would; the harness attributes its k-th run per direction and call to its k-th listed place in that category (routes with two LLM messages per call are not generated here)",
     "listing one flow in several places is accepted by RailsConfig (probed: no validation error, every occurrence runs)",
+    "a rail flow of the library shape `$x = execute a(...)` / `if not $x` / refuse / stop blocks whenever its action's result is falsy: "
+    "False, None (an action without return value), 0 and the empty string are all generated as the 'not allowed' answer; "
+    "`$x = execute a` assigns the action's return value whatever it is (docs/user_guides/colang-language-syntax-guide.md: a context variable is set 'as the return value from an action execution')",
+    "several generate_async calls awaited one after the other inside one coroutine are independent calls: reply and log of a call describe "
+    "that call only (the statement's 'the rails that actually ran'); only the last call of a case is judged, a case whose earlier call raised is skipped",
+    "a call marked new_conversation sends only its own messages (another conversation served by the same LLMRails instance); the harness "
+    "does not clear the instance's events cache between the calls of a case",
 ]
 EXHAUSTIVE = True
 
@@ -72,15 +97,48 @@ def budget(tier):
 EXT = "c16-same-flow"  # vf.pipeline extension (registered below): rail slots that list one shared flow
 
 
-def _cfg(n_out, exc=False, n_in=2, n_ret=1, flows=None):
+# what a rail's action hands back when it rejects: every one of these makes the rail's `if not $result` true
+BLOCK_VALUES = {"false": False, "none": None, "zero": 0, "empty": ""}
+
+
+def _cfg(n_out, exc=False, n_in=2, n_ret=1, flows=None, var=None, block=None):
     """flows = {"in": [label | None, ...], "out": [...]}: slots with the same label list the SAME rail flow `vf shared <label>`
-    (None = the slot's own flow).  The key (and the pipeline extension) is present only if some slot has a label."""
+    (None = the slot's own flow).  The key (and the pipeline extension) is present only if some slot has a label.
+    var = "own": every rail flow keeps its action's result in a variable of its own (default: all rails of the configuration
+    write the same variable, the library's `$allowed = execute ...` convention).  block = "none" | "zero" | "empty": the value a
+    rejecting rail action returns (default: False).  Both keys are present only when they differ from the default."""
     cfg = {"v": 1, "in": ["both"] * n_in, "out": ["both"] * n_out, "ret": n_ret, "dialog": True, "exc": exc}
     flows = {cat: (list((flows or {}).get(cat) or []) + [None] * n)[:n] for cat, n in (("in", n_in), ("out", n_out))}
     if any(flows["in"]) or any(flows["out"]):
         cfg["ext"] = EXT
         cfg["flows"] = flows
+    if var == "own":
+        cfg["ext"] = EXT
+        cfg["var"] = "own"
+    if block in ("none", "zero", "empty"):
+        cfg["ext"] = EXT
+        cfg["block"] = block
     return cfg
+
+
+def _own_rails(cfg):
+    """True if the configuration's rails are generated by this module's extension (own result variables / block value)."""
+    return cfg.get("var") == "own" or cfg.get("block") is not None
+
+
+def _block_value(cfg):
+    return BLOCK_VALUES[cfg.get("block") or "false"]
+
+
+def _result_var(cfg, kind, own):
+    """Variable in which a rail flow keeps its action's result: the shared name of its shape, or `own` for this flow only."""
+    if cfg.get("var") == "own":
+        return f"$vf_result_{own}"
+    return "$allowed" if kind == "check" else "$vf_checked"
+
+
+def _action_name(cat, i):
+    return f"vf_c16_{cat}_r{i}"
 
 
 def _label(cfg, cat, i):
@@ -114,7 +172,7 @@ def _shared_branch(cfg, lab, cat):
     kind = cfg[cat][first]
     var = "$user_message" if cat == "in" else "$bot_message"
     exc = "InputRailException" if cat == "in" else "OutputRailException"
-    res = "$allowed" if kind == "check" else "$vf_checked"
+    res = _result_var(cfg, kind, f"{lab}_{cat}")
     lines = [
         f'{res} = execute vf_shared_{lab}(direction="{cat}", text={var})',
         f"if not {res}",
@@ -132,6 +190,17 @@ def _shared_branch(cfg, lab, cat):
 def _ext_build_config(cfg, colang, yaml_text):
     import yaml
 
+    if _own_rails(cfg):
+        # the slots' own rail flows: same shape as the shared harness generates, but the action is this module's (it
+        # returns the configured block value) and, with var = "own", the result variable belongs to the flow
+        for cat in ("in", "out"):
+            for i, kind in enumerate(cfg.get(cat, [])):
+                text = pipeline._v1_rail(cat, i, kind)
+                call = f"execute {pipeline.rail_action_name(cat, i, 1)}("
+                if colang.count(text) != 1 or text.count(call) != 1:
+                    raise RuntimeError("vf.props.c16: the generated rail flow is not where the extension expects it")
+                mine = text.replace(call, f"execute {_action_name(cat, i)}(").replace(_result_var({}, kind, None), _result_var(cfg, kind, f"{cat}{i}"))
+                colang = colang.replace(text, mine)
     co = [colang]
     for lab in _shared_labels(cfg):
         dirs = [cat for cat in ("in", "out") if _places(cfg, lab, cat)]
@@ -167,10 +236,10 @@ def _make_shared_action(cfg, lab):
         kind = session.rail_kind(cat, idx)
         verdict = fakes.eff(kind, session.rail_verdict(cat, idx, turn, text))
         entry["verdict"] = verdict
-        if kind == "check":
-            return verdict != "reject"
         if verdict == "reject":
-            return False
+            return _block_value(cfg)
+        if kind == "check":
+            return True
         if verdict == "rewrite":
             return session.rewritten(cat, idx, turn, text)
         return text
@@ -179,8 +248,35 @@ def _make_shared_action(cfg, lab):
     return fakes._system(shared_action, name)
 
 
+def _make_rail_action(cfg, cat, idx):
+    """vf.fakes.make_rail_action with the configured block value: a rejecting rail returns False, None (no return value), 0 or ""."""
+    name = _action_name(cat, idx)
+
+    async def rail_action(text=None, context=None):
+        entry = {"rail": f"{cat}{idx}", "cat": cat, "idx": idx, "text": text, "via": "action"}
+        if context is not None:
+            entry["ctx"] = context.get("user_message" if cat == "in" else "bot_message")
+        session, turn = fakes._enter(name, entry)
+        kind = session.rail_kind(cat, idx)
+        verdict = fakes.eff(kind, session.rail_verdict(cat, idx, turn, text))
+        entry["verdict"] = verdict
+        if verdict == "reject":
+            return _block_value(cfg)
+        if kind == "check":
+            return True
+        if verdict == "rewrite":
+            return session.rewritten(cat, idx, turn, text)
+        return text
+
+    rail_action.__name__ = name
+    return fakes._system(rail_action, name)
+
+
 def _ext_actions(cfg):
-    return [_make_shared_action(cfg, lab) for lab in _shared_labels(cfg)]
+    acts = [_make_shared_action(cfg, lab) for lab in _shared_labels(cfg)]
+    if _own_rails(cfg):
+        acts += [_make_rail_action(cfg, cat, i) for cat in ("in", "out") for i in range(len(cfg.get(cat, []))) if not _label(cfg, cat, i)]
+    return acts
 
 
 pipeline.register_extension(EXT, build_config=_ext_build_config, actions=_ext_actions)
@@ -218,17 +314,20 @@ BOTS = ["all good", "it's {sunny} $today", "fine: yes", "ok"]
 D_ROUTES = ["llm", "predef", "next_llm", "pl", "act_llm", "next_predef"]
 
 
-def make_case(subset, spelling, n_out, vin, vout, user_noise, bot_noise, route, exc=False, warm=False, empty_bot=False, n_in=2, n_ret=1, flows=None):
-    subset = [c for c in CATS if c in subset]
-    T = 1 if warm else 0
+def _turn(T, subset, spelling, vin, vout, user_noise, bot_noise, route, empty_bot=False):
+    """One call with a `rails` selection (subset None = a call without the option: all rails); T = its index in the case."""
     turn = {
         "user": f"{user_noise} {fakes.mk_user(T)}",
         "route": route,
         "in": vin,
         "out": vout,
         "body": "generated words",
-        "options": {"rails": _spell(subset, spelling), "log": {"activated_rails": True}},
+        "options": {"log": {"activated_rails": True}},
     }
+    if subset is None:
+        return turn
+    subset = [c for c in CATS if c in subset]
+    turn["options"]["rails"] = _spell(subset, spelling)
     if "dialog" not in subset and "output" in subset:
         turn["bot"] = f"{fakes.mk_llm(T, SUPPLIED_K)} {bot_noise}"
         if empty_bot:
@@ -236,18 +335,41 @@ def make_case(subset, spelling, n_out, vin, vout, user_noise, bot_noise, route, 
             turn["bot"] = ""
             turn["out_any_text"] = True  # the fake rails judge this marker-less text too
             turn["out"] = ["accept" if v == "rewrite" else v for v in vout]
-    turns = [turn]
+    return turn
+
+
+def make_case(subset, spelling, n_out, vin, vout, user_noise, bot_noise, route, exc=False, warm=False, empty_bot=False, n_in=2, n_ret=1, flows=None,
+              var=None, block=None, pre=None, new=False, api="sync"):
+    """pre = calls made on the same LLMRails instance before the judged one: [{"subset": [...] | None (all rails, no option),
+    "spelling", "in", "out", "route", "user", "bot", "new": bool}, ...]; "new" on a call (parameter `new` for the judged one)
+    = the call starts another conversation (its message list does not carry the earlier calls).
+    api = "sync" / "async": every call is its own `generate` / `run_until_complete(generate_async)`;
+    "task": all calls of the case are awaited one after the other in ONE coroutine (one asyncio task, one contextvars context)."""
+    subset = [c for c in CATS if c in subset]
+    pre = list(pre or [])
+    T = len(pre) + (1 if warm else 0)
+    turn = _turn(T, subset, spelling, vin, vout, user_noise, bot_noise, route, empty_bot)
+    turns = []
     if warm:
         # a first call of the same conversation with ALL rails (no `rails` option): the judged call then resends its messages,
         # so whatever the instance remembers about that prefix (events cache) must not override the options of this call
         turns = [{"user": f"hello there {fakes.mk_user(0)}", "route": "llm", "in": ["accept"] * n_in, "out": ["accept"] * n_out, "body": "first words",
-                  "options": {"log": {"activated_rails": True}}}, turn]
-    cfg = _cfg(n_out, exc, n_in, n_ret, flows)
+                  "options": {"log": {"activated_rails": True}}}]
+    for pc in pre:
+        t = len(turns)
+        ptn = _turn(t, pc["subset"], pc.get("spelling", "list"), pc["in"], pc["out"], pc.get("user", "hello there"), pc.get("bot", "all good"), pc.get("route", "llm"))
+        if pc.get("new") and t:
+            ptn["new_conversation"] = True
+        turns.append(ptn)
+    if new and turns:
+        turn["new_conversation"] = True
+    turns.append(turn)
+    cfg = _cfg(n_out, exc, n_in, n_ret, flows, var, block)
     if turn.get("bot") == "":
         # rails of kind "both" hand back the (possibly rewritten) text and refuse on a falsy result - the harness's own rail flows
         # could not tell an accepted empty message from a rejection; the empty-message cases use plain checking rails
         cfg["out"] = ["check"] * n_out
-    return {"config": cfg, "turns": turns, "subset": subset, "spelling": spelling, "api": "sync"}
+    return {"config": cfg, "turns": turns, "subset": subset, "spelling": spelling, "api": api}
 
 
 # (n_in, n_out, n_ret, flows): the rail-count family (every pair of counts that the main table does not have, so that a
@@ -273,17 +395,47 @@ SHAPES = [
 ]
 
 
-def _rows(subset, spelling, n_in, n_out, n_ret, flows, n):
+# (var, block): how the rails keep and signal their verdict (see _cfg); (None, None) = shared variable + False is every other table
+RESULT_SHAPES = [(None, "none"), (None, "zero"), (None, "empty"), ("own", None), ("own", "none")]
+
+
+def _pre_calls(n, n_in, n_out):
+    """One or two earlier calls for table row n, each with a selection of its own (None = no `rails` option: all rails),
+    its own verdict vectors, route and texts, continuing the conversation or starting another one - all derived from n."""
+    pre = []
+    for j in range(1 + (n // 6) % 2):
+        m = n // 6 + 7 * j + 3
+        vi, vo = _vectors(True, n_in), _vectors(True, n_out)
+        pre.append({
+            "subset": None if m % 5 == 0 else [c for b, c in enumerate(CATS) if (m >> b) & 1],
+            "spelling": ("list", "dict")[m % 2],
+            "in": vi[m % len(vi)],
+            "out": vo[(m // 2) % len(vo)],
+            "route": D_ROUTES[m % len(D_ROUTES)],
+            "user": USERS[m % len(USERS)],
+            "bot": BOTS[m % len(BOTS)],
+            "new": bool((m // 3) % 2),
+        })
+    return pre
+
+
+def _rows(subset, spelling, n_in, n_out, n_ret, flows, n, var=None, block=None, only_reject=False):
     """The cases of one table row (n = running row number: picks texts/route and the extra variants)."""
-    kw = dict(n_in=n_in, n_ret=n_ret, flows=flows)
+    kw = dict(n_in=n_in, n_ret=n_ret, flows=flows, var=var, block=block)
     for vin in _in_vectors("input" in subset, n_in):
         for vout in _out_vectors("output" in subset, n_out):
             n += 1
+            if only_reject and not (("input" in subset and "reject" in vin) or ("output" in subset and "reject" in vout)):
+                continue  # (the family varies how a rejection is signalled: rows without one are the main table's)
             yield make_case(subset, spelling, n_out, vin, vout, USERS[n % len(USERS)], BOTS[n % len(BOTS)], D_ROUTES[n % len(D_ROUTES)], **kw)
             if n % 4 == 0:
                 yield make_case(subset, spelling, n_out, vin, vout, USERS[n % len(USERS)], BOTS[n % len(BOTS)], D_ROUTES[n % len(D_ROUTES)], warm=True, **kw)
             if "dialog" not in subset and "output" in subset and "rewrite" not in vout and n % 3 == 0:
                 yield make_case(subset, spelling, n_out, vin, vout, USERS[n % len(USERS)], "", D_ROUTES[0], empty_bot=True, **kw)
+            if n % 6 == 1:
+                # the same row as the last of two or three calls that ONE coroutine awaits one after the other
+                yield make_case(subset, spelling, n_out, vin, vout, USERS[n % len(USERS)], BOTS[n % len(BOTS)], D_ROUTES[n % len(D_ROUTES)],
+                                pre=_pre_calls(n, n_in, n_out), new=bool((n // 12) % 2), api="task", **kw)
 
 
 def enumerate_cases(tier):
@@ -302,6 +454,13 @@ def enumerate_cases(tier):
                 for case in _rows(subset, ("list", "dict")[(n + s) % 2], n_in, n_out, n_ret, flows, n):
                     yield case
                 n += len(_in_vectors("input" in subset, n_in)) * len(_out_vectors("output" in subset, n_out))
+    # how a rejection is signalled: result variable shared by all rails / own per rail x value returned by the rejecting action
+    for s, (var, block) in enumerate(RESULT_SHAPES):
+        for r in range(5):
+            for subset in itertools.combinations(CATS, r):
+                for case in _rows(subset, ("list", "dict")[(n + s) % 2], 2, 2, 1, None, n, var=var, block=block, only_reject=True):
+                    yield case
+                n += len(_in_vectors("input" in subset, 2)) * len(_out_vectors("output" in subset, 2))
 
 
 @st.composite
@@ -321,8 +480,25 @@ def _case(draw):
     vout = [draw(pipeline.st_verdict("both")) for _ in range(n_out)]
     noise = st.one_of(st.text(pipeline.HOSTILE, min_size=1, max_size=14), st.sampled_from(pipeline.INTENT_EXAMPLES))
     bot = st.text(pipeline.TAME + "${}:\"", min_size=1, max_size=14)
-    return make_case(subset, spelling, n_out, vin, vout, draw(noise), draw(bot), draw(st.sampled_from(D_ROUTES)), exc=draw(st.sampled_from([False, False, False, True])), warm=draw(st.booleans()), empty_bot=draw(st.integers(0, 5)) == 0,
-                     n_in=n_in, n_ret=n_ret, flows=flows)
+    case_kw = dict(exc=draw(st.sampled_from([False, False, False, True])), warm=draw(st.booleans()), empty_bot=draw(st.integers(0, 5)) == 0)
+    # how the rails keep / signal their verdict, the calls made before the judged one and how the calls are awaited
+    var = draw(st.sampled_from([None, None, "own"]))
+    block = draw(st.sampled_from([None, None, "none", "none", "zero", "empty"]))
+    pre = []
+    for _ in range(draw(st.sampled_from([0, 0, 1, 1, 2]))):
+        pre.append({
+            "subset": draw(st.sampled_from([None, "drawn", "drawn", "drawn", "drawn"])) and [c for c in CATS if draw(st.booleans())],
+            "spelling": draw(st.sampled_from(["list", "dict", "partial"])),
+            "in": [draw(pipeline.st_verdict("both")) for _ in range(n_in)],
+            "out": [draw(pipeline.st_verdict("both")) for _ in range(n_out)],
+            "route": draw(st.sampled_from(D_ROUTES)),
+            "user": draw(noise),
+            "bot": draw(bot),
+            "new": draw(st.booleans()),
+        })
+    api = draw(st.sampled_from(["sync", "async", "task", "task"]))
+    return make_case(subset, spelling, n_out, vin, vout, draw(noise), draw(bot), draw(st.sampled_from(D_ROUTES)), n_in=n_in, n_ret=n_ret, flows=flows,
+                     var=var, block=block, pre=pre, new=draw(st.booleans()), api=api, **case_kw)
 
 
 def strategy(tier):
@@ -337,8 +513,9 @@ def _check(case, obs):
     T = len(case["turns"]) - 1  # the judged call (the one before it, if any, is a warm-up call with all rails)
     spec = case["turns"][T]
     o = obs.turns[T]
-    if T and obs.turns[0]["raised"]:
-        return ok(skip="warm-up call raised: " + str(obs.turns[0]["raised"])[:80], labels=["warm-up-raised"])
+    for t in range(T):
+        if obs.turns[t]["raised"]:
+            return ok(skip="earlier call raised: " + str(obs.turns[t]["raised"])[:80], labels=["warm-up-raised"])
     sel = set(case["subset"])
     I, D, R, O = ("input" in sel), ("dialog" in sel), ("retrieval" in sel), ("output" in sel)
     what = f"rails={spec['options']['rails']!r} in={spec['in']} out={spec['out']}" + (f" route={spec['route']}" if D else "") + ((" +bot message" if spec["bot"] else " +EMPTY bot message") if spec.get("bot") is not None else "")
@@ -359,8 +536,21 @@ def _check(case, obs):
             labels.append("config:same-flow-in-input-and-output")
         if ni > 1 or no > 1:
             labels.append("config:same-flow-twice-in-" + ("input" if ni > 1 else "output"))
-    if T:
+    earlier = case["turns"][:T]
+    if any("rails" not in (tn.get("options") or {}) for tn in earlier):
         labels.append("after-a-call-with-all-rails")
+    if any("rails" in (tn.get("options") or {}) for tn in earlier):
+        labels.append("after-a-call-with-another-selection")
+    labels.append(f"calls-before={T}")
+    if T:
+        labels.append("calls-awaited:" + ("in-one-task" if case.get("api") == "task" else "each-in-its-own-task"))
+        ran_before = any(e["cat"] in ("in", "out") for t in range(T) for e in obs.turns[t]["trace"])
+        if case.get("api") == "task" and ran_before:
+            labels.append("in-one-task-after-a-call-whose-input/output-rails-ran")
+        if any(tn.get("new_conversation") for tn in case["turns"][1:]):
+            labels.append("calls-of-several-conversations")
+    labels.append("rail-result-variable=" + ("own" if cfg.get("var") == "own" else "shared"))
+    labels.append("reject-returns=" + {"false": "False", "none": "None", "zero": "0", "empty": "empty-string"}[cfg.get("block") or "false"])
     if cfg["exc"]:
         labels.append("rails-exceptions")
     text = pipeline.reply_text(o)
@@ -488,6 +678,9 @@ def _check(case, obs):
             raise Violation("activated-rails-log", f"{what}: dialog rails are not selected but the log lists {ghosts}")
     names = [name for _, name, _ in expected_log]
     twice = len(set(names)) < len(names)
+    if any(stop for _, _, stop in expected_log[1:]):
+        # a rail of this call allowed (accepted / rewrote) before the rejecting one ran: its result was there to be mistaken for this one's
+        labels.append(f"reject-after-an-allowing-rail:{'own' if cfg.get('var') == 'own' else 'shared'}-variable,returns-{cfg.get('block') or 'false'}")
     if len({(t, n) for t, n, _ in expected_log}) < len(expected_log):
         labels.append("same-flow-ran-twice-in-one-category")
     if {n for t, n, _ in expected_log if t == "input"} & {n for t, n, _ in expected_log if t == "output"}:
@@ -497,5 +690,53 @@ def _check(case, obs):
     return ok(nt=nt, labels=sorted(set(labels)), view={"rails": spec["options"]["rails"], "in": spec["in"], "out": spec["out"], "user": spec["user"], "bot": spec.get("bot"), "reply": o["reply"], "rail_calls": [e["rail"] for e in trace], "llm_calls": len(o["llm"]), "log": [(r["type"], r["name"], r["stop"]) for r in log]})
 
 
+def _run_conversation(case, fresh):
+    """vf.pipeline.run_conversation for the two call schedules the shared runner does not have: api "task" (one coroutine
+    awaits every call of the case in turn - one asyncio task, one contextvars context, as an application's own coroutine or
+    a batch loop does) and turns marked "new_conversation" (the call's message list starts afresh: another conversation
+    served by the same LLMRails instance)."""
+    try:
+        p = pipeline.get_pipeline(case["config"], fresh=fresh)
+        s = p.new_session(case)
+
+        def begin(t):
+            if case["turns"][t].get("new_conversation"):
+                s.messages = []
+
+        n = len(case["turns"])
+        if case.get("api") == "task":
+            async def all_calls():
+                out = []
+                for t in range(n):
+                    begin(t)
+                    out.append(await p.turn_async(s, t))
+                return out
+
+            turns = pipeline.loop().run_until_complete(all_calls())
+        else:
+            turns = []
+            for t in range(n):
+                begin(t)
+                turns.append(p.turn(s, t))
+        return pipeline.Observations(case, s, turns, p)
+    except BaseException:
+        pipeline.reset_runtime()
+        raise
+
+
+def _run_checked(case):
+    """vf.pipeline.run_checked on top of _run_conversation: a violation seen on the cached instance must reproduce on a fresh one."""
+    try:
+        return _check(case, _run_conversation(case, False))
+    except Violation as first:
+        try:
+            _check(case, _run_conversation(case, True))
+        except Violation:
+            raise
+        raise RuntimeError(f"harness: violation seen only on a reused LLMRails instance, not on a fresh one: {first}")
+
+
 def prop(case):
+    if case.get("api") == "task" or any(tn.get("new_conversation") for tn in case["turns"]):
+        return _run_checked(case)
     return pipeline.run_checked(case, _check)
